@@ -401,6 +401,84 @@ static void checkC10(Ctx& c, long idx, Rng& r) {
             c.check("prescribed-u:" + nk, vecDiff(mb.getUAsVector(s3), x.u), x.exactU ? 0.0 : (Nid ? 8e-16 : 1e-12) * (1 + vmaxabs(x.u)), W("prescribed u wrong after unlock()", k)); }
         c.cover(nk);
     }
+    // ---------------------------------------------------------------- lock histories on one mobilizer of the same State
+    // 2-5 steps of lock / lockAt (each level, zero and non-zero values) / unlock in random order; after every step the
+    // prescribed q/u/udot must be the documented value of the LAST lock (lock(level): current q or u, 0 for Acceleration;
+    // lockAt(value): value), getLockValueAsVector must report it, and unlock must restore the un-locked behaviour.
+    {
+        std::vector<int> cand; for (int k = 0; k < nn; ++k) if (d.nodes[k].type != MT_Weld && P.mots[k].lockKind == LK_None && P.mots[k].lockDefault == Motion::NoLevel) cand.push_back(k);
+        if (cand.empty()) c.obs("history-no-candidate");
+        else {
+            const int h = cand[r.next() % cand.size()]; const MobilizedBody& mb = P.m.bodies[h];
+            const Motion::Level L3[3] = {Motion::Position, Motion::Velocity, Motion::Acceleration};
+            State sh = s; const State sBase = s;
+            const int nqb = mb.getNumQ(sh), nub = mb.getNumU(sh); const bool quat = matter.isUsingQuaternion(sh, mb.getMobilizedBodyIndex());
+            const int nsteps = r.integer(2, 5); std::string prevOp = "start", histStr; double hv[7] = {0};
+            for (int step = 0; step < nsteps; ++step) {
+                c.setPhase("lock history step");
+                if (r.coin(0.7)) { Vector u(nub); for (int i = 0; i < nub; ++i) u[i] = r.sym(2.0); mb.setUFromVector(sh, u); }   // the client spins the mobilizer
+                int op = r.integer(0, 6); if (step == 0 && op == 6) op = r.integer(0, 5);
+                const bool isLock = op <= 2, isLockAt = op >= 3 && op <= 5; const Motion::Level L = op <= 5 ? L3[op % 3] : Motion::NoLevel;
+                std::string opName = op == 6 ? std::string("unlock") : std::string(isLock ? "lock/" : "lockAt/") + levelName(L);
+                for (double& x : hv) x = 0;
+                const int n = (L == Motion::Position) ? nqb : nub;
+                const Vector qNow = mb.getQAsVector(sh), uNow = mb.getUAsVector(sh);
+                if (isLock) { if (L == Motion::Position) for (int i = 0; i < nqb; ++i) hv[i] = qNow[i]; else if (L == Motion::Velocity) for (int i = 0; i < nub; ++i) hv[i] = uNow[i]; }
+                if (isLockAt) {
+                    if (L == Motion::Position) for (int i = 0; i < nqb; ++i) hv[i] = qNow[i] + ((quat && i < 4) ? 0.0 : r.sym(0.1));
+                    else { bool zero = r.coin(0.25); for (int i = 0; i < nub; ++i) hv[i] = zero ? 0.0 : r.sym(2.0); }
+                }
+                try {
+                    if (isLock) mb.lock(sh, L);
+                    else if (isLockAt) {
+                        int form = r.integer(0, 2);
+                        if (form == 0 && n == 1) mb.lockAt(sh, hv[0], L);
+                        else if (form == 1) { Vector v(n); for (int i = 0; i < n; ++i) v[i] = hv[i]; mb.lockAt(sh, v, L); }
+                        else switch (n) { case 1: mb.lockAt(sh, toVec<1>(hv), L); break; case 2: mb.lockAt(sh, toVec<2>(hv), L); break; case 3: mb.lockAt(sh, toVec<3>(hv), L); break;
+                                          case 4: mb.lockAt(sh, toVec<4>(hv), L); break; case 5: mb.lockAt(sh, toVec<5>(hv), L); break; case 6: mb.lockAt(sh, toVec<6>(hv), L); break; default: mb.lockAt(sh, toVec<7>(hv), L); }
+                    } else mb.unlock(sh);
+                } catch (const std::exception& e) { c.viol("history:lock-call-threw:" + opName, Json(wit).set("what", firstLine(e.what(), 300)).set("history", histStr)); break; }
+                histStr += (histStr.empty() ? "" : " > ") + opName;
+                const std::string hk = opName + ":after:" + prevOp;
+                Json wh = wit; wh.set("historyNode", h).set("history", histStr).set("lockValue", jvec(std::vector<double>(hv, hv + 7)));
+                auto WH = [&](const char* what) { Json w = wh; return [w, what]() { Json x = w; x.set("what", what); return x; }; };
+                // what the State reports about the lock
+                c.require("history:lock-level:" + hk, mb.getLockLevel(sh) == L, WH("getLockLevel() does not report the last lock request"));
+                { Vector lv = mb.getLockValueAsVector(sh); Vector ex(op == 6 ? 0 : n); for (int i = 0; i < ex.size(); ++i) ex[i] = hv[i];
+                  c.require("history:lock-value:" + hk, lv.size() == ex.size() && (ex.size() == 0 || vecDiff(lv, ex) == 0), WH("getLockValueAsVector() != documented value of the last lock (lock(Acceleration) prescribes 0)")); }
+                if (op != 6 && L == Motion::Position) {
+                    c.check("history:position-lock-zeroes-u:" + hk, vmaxabs(mb.getUAsVector(sh)), 0.0, WH("position-level lock did not set this mobilizer's u to zero in the state"));
+                    if (isLockAt) { Vector ex(nqb); for (int i = 0; i < nqb; ++i) ex[i] = hv[i]; c.check("history:lockAt-sets-q:" + hk, vecDiff(mb.getQAsVector(sh), ex), 0.0, WH("lockAt(Position) did not set q in the state")); }
+                }
+                // prescribe + realize, compare with the documented values
+                bool ok = true;
+                try { sys.realize(sh, Stage::Time); sys.prescribe(sh); sys.realize(sh, Stage::Acceleration); } catch (const std::exception& e) { ok = false; c.obs("history-realize-exception"); }
+                if (!ok || !allFinite(sh.getUDot())) { c.skip("history-not-realizable"); break; }
+                Eff e; if (op == 6) e = effective(K, sh, h); else { e.eff = EF_Lock; e.level = L; e.lockVal = hv; e.tag = opName; }
+                Expect x = expected(K, sh, h, e, true);
+                if (x.hasQ) c.check("history:prescribed-q:" + hk, vecDiff(mb.getQAsVector(sh), x.q), x.exactQ ? 0.0 : 8e-16 * (1 + vmaxabs(x.q)), WH("prescribed q != documented value of the last lock"));
+                if (x.hasU) { bool Nid = mobNIsIdentity(d.nodes[h].type) || e.level != Motion::Position;
+                    c.check("history:prescribed-u:" + hk, vecDiff(mb.getUAsVector(sh), x.u), x.exactU ? 0.0 : (Nid ? 8e-16 : 1e-12) * (1 + vmaxabs(x.u)), WH("prescribed u != documented value of the last lock")); }
+                if (x.hasUD) { bool Nid = mobNIsIdentity(d.nodes[h].type) || e.level != Motion::Position; double uu = vmaxabs(mb.getUAsVector(sh));
+                    c.check("history:prescribed-udot:" + hk, vecDiff(mb.getUDotAsVector(sh), x.ud), x.exactUD ? 0.0 : (Nid ? 1e-14 : 1e-11) * (1 + vmaxabs(x.ud) + uu * uu), WH("prescribed udot != documented value of the last lock")); }
+                { Vector ep = matter.calcMotionErrors(sh, Stage::Position), ev = matter.calcMotionErrors(sh, Stage::Velocity), ea = matter.calcMotionErrors(sh, Stage::Acceleration);
+                  double me = std::max(ep.size() ? vmaxabs(ep) : 0.0, ev.size() ? vmaxabs(ev) : 0.0);
+                  c.check("history:motion-errors", std::max(me, ea.size() ? vmaxabs(ea) : 0.0), 1e-13 * (1 + vmaxabs(sh.getUDot())), WH("calcMotionErrors != 0 after prescribe/realize in a lock history")); }
+                if (op == 6) {
+                    // unlock: the State must behave exactly like one whose mobilizer was never locked
+                    State sRef = sBase; sRef.updQ() = Vector(sh.getQ()); sRef.updU() = Vector(sh.getU());
+                    bool ok2 = true; try { sys.realize(sRef, Stage::Time); sys.prescribe(sRef); sys.realize(sRef, Stage::Acceleration); } catch (const std::exception&) { ok2 = false; }
+                    if (ok2 && allFinite(sRef.getUDot())) {
+                        c.check("history:unlock-restores:udot:after:" + prevOp, vecDiff(sh.getUDot(), sRef.getUDot()), 1e-12 * (1 + vmaxabs(sRef.getUDot())), WH("after unlock() udot differs from a State in which the mobilizer was never locked"));
+                        Vector t1, t2; matter.findMotionForces(sh, t1); matter.findMotionForces(sRef, t2);
+                        c.check("history:unlock-restores:tau:after:" + prevOp, vecDiff(t1, t2), 1e-12 * (1 + vmaxabs(t2)), WH("after unlock() motion forces differ from a State in which the mobilizer was never locked"));
+                    }
+                }
+                c.cover("history/" + hk);
+                prevOp = opName;
+            }
+        }
+    }
     for (int k = 0; k < nn; ++k) if (eff[k].eff != EF_Free) c.cover(nodeKey[k] + "/" + (cons.empty() ? "nocons" : "cons"));
     c.cover("constraints/" + ckey);
     if (c.wantSample()) c.sample(Json::obj().set("model", d.shortStr()).set("primary", nodeKey[prim]).set("constraints", ckey).set("tau", jV(tauFull)).set("udot", jV(udot)));
